@@ -25,6 +25,11 @@ if len(sys.argv) > 4 and sys.argv[4] == "wait":
         m.save_calibrator_state(warm, *args, **kw)
     finally:
         shutil.rmtree(warm, ignore_errors=True)
+    try:  # allow a non-parent tracer even under YAMA ptrace_scope=1 (PR_SET_PTRACER, PR_SET_PTRACER_ANY)
+        import ctypes
+        ctypes.CDLL(None).prctl(0x59616D61, ctypes.c_ulong(-1 & (2 ** 64 - 1)), 0, 0, 0)
+    except Exception:  # noqa: BLE001
+        pass
     print("READY", flush=True)
     os.kill(os.getpid(), signal.SIGSTOP)
 m.save_calibrator_state(folder, *args, **kw)
